@@ -358,8 +358,52 @@ type alignFn struct {
 	blocks  *Sym // first argument of the trace call
 	idx     *Sym // index expression i used for the decideOnStep store
 	zeroGO  bool
-	local   *ssa.Alloc // the cell of the current iteration kept in a local variable, if the fill is written that way
-	flush   *ssa.Store // … and the store that writes it into the table
+	local   *ssa.Alloc    // the cell of the current iteration kept in a local variable, if the fill is written that way
+	flush   *ssa.Store    // … and the store that writes it into the table
+	clampFn *ssa.Function // the value helper that floors a cell at zero (valueClampHelper), if Local uses one
+}
+
+// valueClampHelper: g takes one cell by value and returns it, or the zero cell if its score is negative — the floor
+// at zero of a local alignment as a function of the cell's value: `if bl.score < 0 { return block{0, 0} }; return bl`.
+func valueClampHelper(c *Ctx, g *ssa.Function) bool {
+	if g == nil || g.Blocks == nil || !c.inModule(g) || len(g.Params) != 1 || g.Signature.Results().Len() != 1 {
+		return false
+	}
+	st, ok := g.Params[0].Type().Underlying().(*types.Struct)
+	if !ok || st.NumFields() != 2 || !types.Identical(g.Params[0].Type(), g.Signature.Results().At(0).Type()) {
+		return false
+	}
+	gs := newSymb(g)
+	cases := returnCases(gs, g)
+	if len(cases) != 2 {
+		return false
+	}
+	okZero, okSame := false, false
+	for _, rc := range cases {
+		if len(rc.vals) != 1 {
+			return false
+		}
+		v := gs.expr(rc.vals[0])
+		if os.Getenv("BIOCHECK_DEBUG") != "" {
+			fmt.Println("clamp value helper case:", rc.guard, "=>", v.String())
+		}
+		isZero := false
+		if k, isC := rc.vals[0].(*ssa.Const); isC && k.Value == nil {
+			isZero = true // block{}
+		}
+		if v.Op == "load" && v.Args[0].Op == "alloc" && compositeConsts(v.Args[0].Val) == "{f0:0,f1:0}" {
+			isZero = true
+		}
+		neg := rc.guard == "(P0.f0 < 0)" || rc.guard == "(load(P0.f0) < 0)" || rc.guard == "(0 > P0.f0)" || rc.guard == "(0 > load(P0.f0))"
+		notNeg := rc.guard == "!(P0.f0 < 0)" || rc.guard == "!(load(P0.f0) < 0)" || rc.guard == "!(0 > P0.f0)" || rc.guard == "!(0 > load(P0.f0))"
+		switch {
+		case neg && isZero:
+			okZero = true
+		case notNeg && (v.String() == "P0" || v.String() == "load(P0)"):
+			okSame = true
+		}
+	}
+	return okZero && okSame
 }
 
 // localCellFlush: al is a struct variable of the loop body that is written into one element of a slice as a whole,
@@ -575,6 +619,23 @@ func loadAlign(c *Ctx, r *Report, name, traceName string) *alignFn {
 		}
 	}
 	if a.idx == nil {
+		// the result floored at zero by a value helper on its way into the table: blocks[i] = floor(decideOnStep(…))
+		for _, ref := range *a.decide.Referrers() {
+			cl, ok := ref.(*ssa.Call)
+			if !ok || len(cl.Call.Args) != 1 || cl.Call.Args[0] != ssa.Value(a.decide) || !valueClampHelper(c, cl.Call.StaticCallee()) {
+				continue
+			}
+			for _, r2 := range *cl.Referrers() {
+				if st, ok := r2.(*ssa.Store); ok && st.Val == ssa.Value(cl) {
+					if ia, ok := st.Addr.(*ssa.IndexAddr); ok {
+						a.idx = a.s.expr(ia.Index)
+						a.clampFn = cl.Call.StaticCallee()
+					}
+				}
+			}
+		}
+	}
+	if a.idx == nil {
 		// the cell computed in a local variable of the iteration and stored whole at its end:
 		// var cur block; …; cur = decideOnStep(…); blocks[i] = cur
 		for _, ref := range *a.decide.Referrers() {
@@ -688,18 +749,32 @@ func (a *alignFn) cellStores(c *Ctx) []string {
 				continue
 			}
 		}
-		vs := val.render(a.repl())
-		if val.Op == "load" && val.Args[0].Op == "alloc" {
-			vs = "composite" + compositeConsts(val.Args[0].Val)
-		}
 		guard := guardOf(ss.sy, st.Block(), a.repl())
 		if ss.via != nil {
 			// the helper's own condition on top of the condition of the call
 			guard = joinGuards(guardOf(a.s, ss.via.Block(), a.repl()), guard)
 		}
+		// the cell floored at zero by a value helper: the store of the value, and the zero clamp under `score < 0`
+		if cl, ok := val.Val.(*ssa.Call); ok && field == "*" && len(val.Args) == 1 && valueClampHelper(c, cl.Call.StaticCallee()) {
+			cellS := fmt.Sprintf("blocks[%s]", idx.render(a.repl()))
+			out = append(out, fmt.Sprintf("[%s] %s.* = composite{f0:0,f1:0}", joinGuards(guard, "(load("+cellS+".f0) < 0)"), cellS))
+			val = val.Args[0]
+			if val.Op == "load" && val.Args[0].String() == ad.String() {
+				continue // the cell as it is
+			}
+		}
+		vs := val.render(a.repl())
+		if val.Op == "load" && val.Args[0].Op == "alloc" {
+			vs = "composite" + compositeConsts(val.Args[0].Val)
+		}
 		out = append(out, fmt.Sprintf("[%s] blocks[%s].%s = %s", guard, idx.render(a.repl()), field, vs))
 	}
 	sort.Strings(out)
+	if os.Getenv("BIOCHECK_DEBUG") != "" {
+		for _, o := range out {
+			fmt.Println("cellStore", a.f.Name(), o)
+		}
+	}
 	return out
 }
 
@@ -1711,7 +1786,32 @@ func rulesLocalClamp(c *Ctx, r *Report) {
 		return okTest && okStore && nStores == 1
 	}
 	var clampCalls []*ssa.Call
+	clampStore := map[*ssa.Store]bool{} // stores of a cell floored by the value helper: clamped by construction
 	instrs(a.f, func(in ssa.Instruction) {
+		if cl, ok := in.(*ssa.Call); ok && len(cl.Call.Args) == 1 && valueClampHelper(c, cl.Call.StaticCallee()) {
+			// blocks[i] = floor(v): the stored value is never negative; as a clamp of the cell it counts when v is the
+			// cell itself or the fresh result of decideOnStep
+			for _, ref := range *cl.Referrers() {
+				st, ok := ref.(*ssa.Store)
+				if !ok || st.Val != ssa.Value(cl) {
+					continue
+				}
+				if f, ok := isCellAddr(st.Addr); ok && f == "*" {
+					arg := cl.Call.Args[0]
+					isCell := false
+					if ld, ok := arg.(*ssa.UnOp); ok && ld.Op == token.MUL {
+						if f2, ok2 := isCellAddr(ld.X); ok2 && f2 == "*" {
+							isCell = true
+						}
+					}
+					if isCell || arg == ssa.Value(a.decide) {
+						clampStore[st] = true
+						clampCalls = append(clampCalls, cl)
+						clampTest[cl.Block()] = true
+					}
+				}
+			}
+		}
 		if cl, ok := in.(*ssa.Call); ok && len(cl.Call.Args) == 1 && isClampHelper(cl.Call.StaticCallee()) {
 			if f, ok := isCellAddr(cl.Call.Args[0]); ok && f == "*" {
 				clampCalls = append(clampCalls, cl)
@@ -1747,6 +1847,11 @@ func rulesLocalClamp(c *Ctx, r *Report) {
 			}
 			if k, isC := st.Val.(*ssa.Const); isC && isZeroConst(k) && clampArm[b] {
 				continue // the clamp itself, written field by field
+			}
+			if clampStore[st] {
+				n++
+				r.holds("CLAMP", fn, "store "+guardOf(a.s, b, a.repl()), c.pos(st.Pos()), "the value stored is floored at zero by "+fname(st.Val.(*ssa.Call).Call.StaticCallee())+" (zero cell if its score is negative, else unchanged)")
+				continue
 			}
 			n++
 			escaped := false
